@@ -34,6 +34,9 @@ REQUIRED_THEOREMS = [
     "TapkeeVerif.Tsne.run_joint_csr",
     "TapkeeVerif.Tsne.symmetrizeCsr_small_partial",
     "TapkeeVerif.Tsne.gradient_identity",
+    "TapkeeVerif.Tsne.exactGradientSpec_apply",
+    "TapkeeVerif.Tsne.prune_sound",
+    "TapkeeVerif.Tsne.symmetrizeCsr_small3_partial",
     "TapkeeVerif.Tsne.exactGradient_is_grad_KL",
     "TapkeeVerif.Tsne.exactGradient_directional",
     "TapkeeVerif.Tsne.zeroMean_centres",
@@ -612,7 +615,7 @@ def correspond(ctx):
         lines = [gen() for _ in range(nq if quick else nt)]
         if name in ("run-exact", "run-bh-theta-small"):
             # the first case(s) of these stages are followed to the last iteration (999) of run(), the others to 260
-            for i in range(1 if quick else 4):
+            for i in range((1 if name == "run-exact" else 0) if quick else 4):
                 lines[i] = lines[i].replace(" upto=260", " upto=999")
         for i in range(0, len(lines), 200):
             judge(ctx, binary, lines[i:i + 200], name)
